@@ -179,17 +179,20 @@ type Case struct {
 	AllTimeLabel bool      `json:"all_time_label,omitempty"`
 	Program      []OptSpec `json:"program"`
 	// dimensions added by the generator-domain audit
-	Artifact *ArtSpec  `json:"artifact,omitempty"` // the source is an OCI artifact manifest (Images[0] is then not materialised)
-	Nested   bool      `json:"nested,omitempty"`   // the index is wrapped in an outer index
-	IdxNoMT  bool      `json:"idx_no_mt,omitempty"`
-	SrcForm  string    `json:"src_form,omitempty"`  // "" tag | digest | tag+digest
-	BaseLoc  string    `json:"base_loc,omitempty"`  // "" other repo on host A | src-repo | host2
-	TgtPre   string    `json:"tgt_pre,omitempty"`   // "" | stale-tag | stale-digest
-	CancelAt int       `json:"cancel_at,omitempty"` // >0: the context is cancelled when the k-th request arrives; -1: cancelled before the call
-	Chain    []OptSpec `json:"chain,omitempty"`     // second program applied to the result with the same client
-	HasChain bool      `json:"has_chain,omitempty"`
-	FeatA    FeatSpec  `json:"feat_a"`
-	FeatB    FeatSpec  `json:"feat_b"`
+	// EntryOrder lists, per index entry, the image it names (nil = one entry per image in order);
+	// an image named more than once gives duplicate child digests under different platforms
+	EntryOrder []int     `json:"entry_order,omitempty"`
+	Artifact   *ArtSpec  `json:"artifact,omitempty"` // the source is an OCI artifact manifest (Images[0] is then not materialised)
+	Nested     bool      `json:"nested,omitempty"`   // the index is wrapped in an outer index
+	IdxNoMT    bool      `json:"idx_no_mt,omitempty"`
+	SrcForm    string    `json:"src_form,omitempty"`  // "" tag | digest | tag+digest
+	BaseLoc    string    `json:"base_loc,omitempty"`  // "" other repo on host A | src-repo | host2
+	TgtPre     string    `json:"tgt_pre,omitempty"`   // "" | stale-tag | stale-digest
+	CancelAt   int       `json:"cancel_at,omitempty"` // >0: the context is cancelled when the k-th request arrives; -1: cancelled before the call
+	Chain      []OptSpec `json:"chain,omitempty"`     // second program applied to the result with the same client
+	HasChain   bool      `json:"has_chain,omitempty"`
+	FeatA      FeatSpec  `json:"feat_a"`
+	FeatB      FeatSpec  `json:"feat_b"`
 }
 
 // ArtSpec is an artifact source.
@@ -445,6 +448,19 @@ func gen(t *rapid.T) Case {
 		c.ChildData = rapid.IntRange(0, 9).Draw(t, "childdata") == 0
 		c.IdxNoMT = c.Index == "oci" && uniformInt(t, "idxnomt", 12) == 0
 		c.Nested = uniformInt(t, "nested", 12) == 0
+		// the same child listed more than once (e.g. one image for linux/arm/v6 and linux/arm/v7)
+		if uniformInt(t, "dupentries", 4) == 0 {
+			order := intRange(nimg)
+			for k, n := 0, rapid.SampledFrom([]int{1, 1, 2}).Draw(t, "ndup"); k < n; k++ {
+				img := rapid.IntRange(0, nimg-1).Draw(t, "dupimg")
+				at := rapid.IntRange(0, len(order)).Draw(t, "dupat") // == len: appended last
+				if at == len(order) && uniformInt(t, "duplast", 3) != 0 {
+					at = rapid.IntRange(0, len(order)-1).Draw(t, "dupat2")
+				}
+				order = append(order[:at], append([]int{img}, order[at:]...)...)
+			}
+			c.EntryOrder = order
+		}
 		// a body without mediaType is typed by its first entry (documented duck typing): only OCI children
 		for _, im := range c.Images {
 			if im.Family != "oci" {
@@ -890,6 +906,9 @@ func (c Case) shape() string {
 	}
 	if c.Nested && c.Index != "" {
 		sb.WriteString("+nested")
+	}
+	if c.Index != "" && c.EntryOrder != nil {
+		sb.WriteString(fmt.Sprintf("+order%v", c.EntryOrder))
 	}
 	sb.WriteString("|" + c.Src + c.SrcForm + ">" + c.Tgt + c.TgtPre)
 	return sb.String()
